@@ -77,3 +77,10 @@ Print Assumptions C18_no_amplification.
 Theorem C18_enc_old_refuted : exists a p a' p', (a, p) <> (a', p') /\ enc_old a p = enc_old a' p'.
 Proof. exact enc_old_refuted. Qed.
 Print Assumptions C18_enc_old_refuted.
+
+(* the numbers and tables this property's model uses are the ones the sources declare: Model/GenConsts.v is
+   regenerated from the repository under test (tools/consts) before every build *)
+From V Require Import Model.GenConsts Proofs.TieC18.
+Theorem C18_constants_are_the_sources : TieC18.tie.
+Proof. exact TieC18.tie_holds. Qed.
+Print Assumptions C18_constants_are_the_sources.
